@@ -52,3 +52,37 @@ Theorem C09_sector_preserved : forall sel ops d s d',
   nocc_in sel 0 d' = nocc_in sel 0 d.
 Proof. exact string_preserves_sector. Qed.
 Print Assumptions C09_sector_preserved.
+
+(* conservation under every polynomial propagator (Conserve.v): a Hamiltonian whose strings have zero shift on a block
+   of positions (alpha block, beta block, all positions) keeps every power H^m psi and every finite combination
+   sum_m c_m H^m psi - every truncated Taylor series and Chebyshev expansion - inside the sector of psi; amplitudes
+   outside the sector are exactly zero.  Any commutative ring. *)
+From FQE Require Import Conserve.
+Close Scope Z_scope.
+Theorem C09_propagation_stays_in_sector :
+  forall (R : Type) (rmul : R -> R -> R) (ropp : R -> R) (sel : nat -> bool) (k : nat)
+         (p : poly R) (cs : list (R * nat)) (v : vec R),
+  conserves R sel p -> supported R (in_sector sel k) v ->
+  supported R (in_sector sel k) (lincomb R rmul ropp p cs v).
+Proof. exact sector_closed_lincomb. Qed.
+Print Assumptions C09_propagation_stays_in_sector.
+
+Theorem C09_amplitude_outside_sector_is_zero :
+  forall (R : Type) (rO rI : R) (radd rmul rsub : R -> R -> R) (ropp : R -> R),
+  ring_theory rO rI radd rmul rsub ropp eq ->
+  forall (sel : nat -> bool) (k : nat) (p : poly R) (cs : list (R * nat)) (v : vec R) (d : det),
+  conserves R sel p -> supported R (in_sector sel k) v -> nocc_in sel 0 d <> k ->
+  coeff R rO radd (lincomb R rmul ropp p cs v) d = rO.
+Proof. exact propagated_amplitude_outside_sector_is_zero. Qed.
+Print Assumptions C09_amplitude_outside_sector_is_zero.
+
+(* an observable Q commuting with H (S^2 under a spin-symmetric Hamiltonian): eigenvectors of Q stay eigenvectors
+   with the same eigenvalue under every polynomial in H *)
+Theorem C09_commuting_observable_conserved :
+  forall (R : Type) (rO rI : R) (radd rmul rsub : R -> R -> R) (ropp : R -> R),
+  ring_theory rO rI radd rmul rsub ropp eq ->
+  forall (p q : poly R) (lam : R) (cs : list (R * nat)) (v : vec R),
+  commute R rO radd rmul ropp p q -> eigen R rO radd rmul ropp q lam v ->
+  eigen R rO radd rmul ropp q lam (lincomb R rmul ropp p cs v).
+Proof. exact commuting_preserves_eigen_lincomb. Qed.
+Print Assumptions C09_commuting_observable_conserved.
